@@ -24,6 +24,7 @@ Section Run.
   | OEq (i j : nat) (tol : T)  (* a == b, b == a, and a == b at relative = absolute tolerance tol *)
   | OFillNp (i : nat) (rows : list (datum N * T))   (* h.fill.numpy(columns, weights) *)
   | OSnapP (i : nat)           (* snapshot up to empty sparse bins *)
+  | OClone (i : nat)           (* push pickle.loads(pickle.dumps(pool[i])) *)
   | OSnapAll.
 
   Definition dummy : agg := Leaf (LCount TId) no_quantity (leaf_zero (LCount TId)).
@@ -81,6 +82,7 @@ Section Run.
         let '(a', r) := fillnp (get p i) rows in
         (set p i a', [oc r])
     | OSnapP i => (p, snap (prune (get p i)))
+    | OClone i => let c := get p i in (p ++ [c], 0 :: snap c)
     | OSnapAll => (p, List.concat (map (fun a => 7777 :: snap a) p))
     end.
 
